@@ -167,12 +167,29 @@ def _install():
 
 
 def _stored_complete(folder, t):
-    """per mapped function: number of element files that hold a complete value (read natively)"""
+    """per function: number of element files that hold a complete value (read natively); for a function
+    without MapSpec 1 if its output files are complete, else 0"""
     from engine import shims
+
+    def complete(path):
+        with open(path, "rb") as fh:
+            b = fh.read()
+        if shims.TOK:
+            return len(b) == 11 and b.startswith(b"TOK")
+        try:
+            import cloudpickle
+
+            cloudpickle.loads(b)
+            return True
+        except Exception:  # noqa: BLE001
+            return False
 
     out = {}
     for fs in t.funcs:
         if not (fs.mapspec and tmpl.parse_spec(fs.mapspec)[0]):
+            # a function without MapSpec: one file per output, stored (1) or not (0)
+            files = [os.path.join(folder, "outputs", o + ".cloudpickle") for o in fs.outputs]
+            out[fs.name] = int(all(os.path.isfile(f) and complete(f) for f in files))
             continue
         counts = []
         for o in fs.outputs:
@@ -251,7 +268,8 @@ def resume(tid, storage, crash_at, torn, second_crash, n0, n1, n2, *vals):  # no
             return False
         for fs in t.funcs:
             again = log.count(fs.name) - before[fs.name]
-            if fs.name in stored and storage == "file_array":
+            is_map0 = bool(fs.mapspec and tmpl.parse_spec(fs.mapspec)[0])
+            if fs.name in stored and (storage == "file_array" or not is_map0):
                 if again > ncalls[fs.name] - stored[fs.name]:
                     return fail("an element that was completely stored before the interruption was recomputed")
             is_map = bool(fs.mapspec and tmpl.parse_spec(fs.mapspec)[0])
@@ -294,9 +312,9 @@ def user_failure(tid, storage, fname, k, n0, n1, n2, *vals):
             return False
         for fs in t.funcs:
             again = log.count(fs.name) - before[fs.name]
-            if fs.name in stored and storage == "file_array" and again > ncalls[fs.name] - stored[fs.name]:
-                return fail("an element that was completely stored before the failure was recomputed")
             is_map = bool(fs.mapspec and tmpl.parse_spec(fs.mapspec)[0])
+            if fs.name in stored and (storage == "file_array" or not is_map) and again > ncalls[fs.name] - stored[fs.name]:
+                return fail("an element that was completely stored before the failure was recomputed")
             if (storage == "file_array" or not is_map) and log.count(fs.name) > ncalls[fs.name] + 1:
                 return fail("more recomputation than the failed invocation can explain")
         return True
@@ -339,9 +357,9 @@ def obligations(tier):
     thorough = tier == "thorough"
     obs = []
     I = "int"
-    cases = [("T1", "file_array"), ("T5", "file_array"), ("T5", "dict"), ("T8", "file_array")]
+    cases = [("T1", "file_array"), ("T5", "file_array"), ("T5", "dict"), ("T8", "file_array"), ("T7", "dict")]
     if thorough:
-        cases += [("T13", "file_array"), ("T7", "file_array"), ("T4", "file_array"), ("T4", "dict"), ("T12", "file_array"), ("T6", "file_array"), ("T16", "file_array"), ("T1", "dict")]
+        cases += [("TN3", "file_array"), ("T13", "file_array"), ("T7", "file_array"), ("T4", "file_array"), ("T4", "dict"), ("T12", "file_array"), ("T6", "file_array"), ("T16", "file_array"), ("T1", "dict")]
     chunk = 8
     for tid, st in cases:
         t = T[tid]
@@ -361,7 +379,7 @@ def obligations(tier):
                     canaries=("existence_is_completeness",) if (tid, st, lo) == ("T1", "file_array", 1) else (),
                 )
             )
-        if thorough:
+        if thorough and (tid, st) in (("T1", "file_array"), ("T5", "file_array"), ("T8", "file_array"), ("T7", "dict")):
             for lo in range(1, nmax + 1, 6):
                 hi = min(nmax, lo + 5)
                 obs.append(
@@ -375,7 +393,8 @@ def obligations(tier):
                         bounds=f"{tid}, {st}: two successive crashes (first at {lo}..{hi}, second at 1..{nmax} of the first resume), torn writes",
                     )
                 )
-    for tid, fname, st in (("T1", "f", "file_array"), ("T5", "f", "file_array"), ("T5", "tot", "file_array"), ("T8", "g", "file_array"), ("T13", "f", "dict")):
+    for tid, fname, st in (("T1", "f", "file_array"), ("T5", "f", "file_array"), ("T5", "tot", "file_array"), ("T8", "g", "file_array"), ("T13", "f", "dict"),
+                           ("TN3", "f", "file_array"), ("TN3", "tot", "dict")):
         t = T[tid]
         obs.append(
             Ob(
